@@ -128,7 +128,8 @@ Post(e) ==
 TraceInit ==
     /\ tid \in 1..Len(Traces)
     /\ l = 1
-    /\ HealthInit(Cfg.fix, Cfg.scan, Cfg.rest, Cfg.node, Cfg.a, Cfg.v, Cfg.fh, Cfg.fv, Cfg.fov)
+    /\ HealthInitI(Cfg.fix, Cfg.scan, Cfg.rest, Cfg.node, Cfg.a, Cfg.v, Cfg.fh, Cfg.fv, Cfg.fov,
+                   IF "inst" \in DOMAIN Cfg THEN Cfg.inst ELSE FALSE)
 
 TraceNext ==
     /\ l <= Len(T)
